@@ -126,7 +126,30 @@ def execute(c):
     return project(t)
 
 
+def exec_lex(c):
+    """the tokeniser on one character string; a token is [kind, text, value * 10^6 (or -1), negative?]"""
+    try:
+        from swcgeom.transforms.neurolucida_asc import Lexer
+    except ImportError:
+        return {"err": "machinery", "toks": []}
+    text = "".join(c["s"])
+    kinds = {"BRACKET_LEFT": "(", "BRACKET_RIGHT": ")", "OR": "|", "COMMENT": ";", "FLOAT": "F", "LITERAL": "L"}
+    toks = []
+    for t in Lexer(io.StringIO(text)):
+        k = kinds.get(t.type.name, t.type.name)
+        if k == "F":
+            v = float(t.value)
+            m = abs(v) * 1e6
+            ok = m < 2e9 and abs(m - round(m)) < 1e-6 * max(1.0, m)
+            toks.append(["F", "", int(round(m)) if ok else -1, int(v < 0 or (v == 0 and str(v).startswith("-")))])
+        else:
+            toks.append([k, str(t.value) if k in (";", "L") else "", -1, 0])
+    return {"toks": toks}
+
+
 def keyfn(c, o, why):
+    if "s" in c:
+        return "lexer:%s" % why
     if c["var"] == "big":
         if why.startswith("rejected-a-well-formed-document-"):
             why = "rejected-a-well-formed-document"          # the key does not depend on which exception class says so
@@ -135,6 +158,8 @@ def keyfn(c, o, why):
 
 
 def nontrivial(c):
+    if "s" in c:
+        return len(c["s"]) >= 2
     return c["var"] == "big" or any(t[0] == "|" for t in c["toks"])
 
 
@@ -218,6 +243,10 @@ def run(ctx):
     ctx.mc("MC_Asc", "MC_Asc.%s.cfg" % ctx.tier, deadlock=False, coverage=False, timeout=3000)
     ctx.mc_expect_violation("MC_Asc", "MC_Asc.nolead.cfg", "Faithful", deadlock=False)
     ctx.mc_expect_violation("MC_Asc", "MC_Asc.noclose.cfg", "RejectsTruncated", deadlock=False)
+    # the tokeniser, character by character: the state machine computes Lex (MC_Lexer), every short string goes through the real Lexer
+    ctx.mc("MC_Lexer", "MC_Lexer.%s.cfg" % ctx.tier, deadlock=False, coverage=False)
+    lcases, lpath = ctx.gen("Gen_Lexer", "Gen_Lexer.%s.cfg" % ctx.tier)
+    ctx.run_cases("tokeniser", lcases, lpath, exec_lex, "Judge_Lexer", keyfn, nontrivial)
     docs = gen_docs(ctx, "MC_Asc.gen.%s.cfg" % ctx.tier) + gen_docs(ctx, "MC_Asc.genm.%s.cfg" % ctx.tier)
     cases = expand(docs, ctx.rng, q)
     p = ctx.write_cases("produced", cases)
@@ -240,5 +269,5 @@ def run(ctx):
 def replay(ctx, rec):
     c = rec["case"]
     p = ctx.write_cases("replay", [c])
-    ctx.run_cases("replay", [c], p, execute, rec.get("judge", "Judge_Asc"), keyfn, per_case_timeout=300)
+    ctx.run_cases("replay", [c], p, exec_lex if "s" in c else execute, rec.get("judge", "Judge_Asc"), keyfn, per_case_timeout=300)
     return ctx.finish(rule="replay of one recorded case")
